@@ -230,8 +230,13 @@ namespace igris
                     break;
 
                 default:
+                {
+                    size_t before = _line.current_size();
                     _line.newdata(c);
-                    retcode = READLINE_ECHOCHAR;
+                    retcode = _line.current_size() != before
+                                  ? READLINE_ECHOCHAR
+                                  : READLINE_NOTHING;
+                }
                     break;
                 }
                 break;
